@@ -299,6 +299,12 @@ N("idiom-rename-locals-in-row-sites", ["C06", "C08"],
   [("src/bits.rs", "        let mut total = 0;\n\n        let mut i = 0;\n        while i < LIMBS {\n            total += self.limbs[i].count_ones() as usize;\n            i += 1;\n        }\n\n        total", "        let mut ones = 0;\n        let mut k = 0;\n        while k < LIMBS {\n            ones += self.limbs[k].count_ones() as usize;\n            k += 1;\n        }\n        ones"),
    ("src/bytes.rs", "        let mut c = bytes.len();\n        while i < bytes.len() {\n            c -= 1;\n            let (limb, byte) = (i / 8, i % 8);\n            limbs[limb] += (bytes[c] as u64) << (byte * 8);", "        let mut cursor = bytes.len();\n        while i < bytes.len() {\n            cursor -= 1;\n            let (word, lane) = (i / 8, i % 8);\n            limbs[word] += (bytes[cursor] as u64) << (lane * 8);")])
 
+# ---- offset-window loops: `&mut lhs[i..]` with i from enumerate() is in range because the previous window was not empty
+N("window-addmul-enumerate-offset", ["C15", "C02"],
+  [("src/algorithms/mul.rs", "    for &b in b {\n        if lhs.len() >= a.len() {\n            let (target, rest) = lhs.split_at_mut(a.len());\n            let carry = addmul_nx1(target, a, b);\n            let carry = add_nx1(rest, carry);\n            overflow |= carry != 0;\n        } else {\n            overflow = true;\n            if lhs.is_empty() {\n                break;\n            }\n            addmul_nx1(lhs, &a[..lhs.len()], b);\n        }\n        lhs = &mut lhs[1..];\n    }\n", "    for (i, &b) in b.iter().enumerate() {\n        let window = &mut lhs[i..];\n        if window.len() >= a.len() {\n            let carry = addmul_nx1(&mut window[..a.len()], a, b);\n            let carry = add_nx1(&mut window[a.len()..], carry);\n            overflow |= carry != 0;\n        } else {\n            overflow = true;\n            if window.is_empty() {\n                break;\n            }\n            addmul_nx1(window, &a[..window.len()], b);\n        }\n    }\n")])
+B("window-addmul-enumerate-offset-no-break", ["C15"],
+  [("src/algorithms/mul.rs", "    for &b in b {\n        if lhs.len() >= a.len() {\n            let (target, rest) = lhs.split_at_mut(a.len());\n            let carry = addmul_nx1(target, a, b);\n            let carry = add_nx1(rest, carry);\n            overflow |= carry != 0;\n        } else {\n            overflow = true;\n            if lhs.is_empty() {\n                break;\n            }\n            addmul_nx1(lhs, &a[..lhs.len()], b);\n        }\n        lhs = &mut lhs[1..];\n    }\n", "    for (i, &b) in b.iter().enumerate() {\n        let window = &mut lhs[i..];\n        if window.len() >= a.len() {\n            let carry = addmul_nx1(&mut window[..a.len()], a, b);\n            let carry = add_nx1(&mut window[a.len()..], carry);\n            overflow |= carry != 0;\n        } else {\n            overflow = true;\n            addmul_nx1(window, &a[..window.len()], b);\n        }\n    }\n")], "addmul")
+
 # ---- R-TOTAL/overflow-checks on C16 (defect F16, re-created)
 B("ovf-scale-size_hint-256-bit-formula", ["C16"],
   [("src/support/scale.rs", "            _ => self.0.byte_len() + 1,\n", "            _ => (32 - self.0.leading_zeros() / 8) + 1,\n")], "Overflow(Sub:32")
